@@ -660,7 +660,12 @@ def rule_Q3(ctx, rid='Q3'):
     augs = [n for n in aug_nodes(cfg) if
             root_attr(n.ast.target, f.self_name) and
             root_attr(n.ast.target, f.self_name)[0] == 'shell_n_sample']
-    ctx.require(len(augs) == 1, 'add_samples: update of shell_n_sample not found')
+    if not augs:
+        ctx.ob(rid, 'Sampler.add_samples:proposal-count-source', False, f.where(),
+               'add_samples never advances shell_n_sample: the proposals of a batch are not '
+               'counted, so the shell volume V_b n/N uses a stale N')
+        return
+    ctx.require(len(augs) == 1, 'add_samples: several updates of shell_n_sample')
     a = augs[0]
     okv = isinstance(a.ast.op, ast.Add) and isinstance(a.ast.value, ast.Name)
     src_ok = False
